@@ -405,6 +405,24 @@ def c19_emissions(op, impl, model):
             f"(pool before {pre[13]}, after {i[13]}; position's unclaimed rewards {i[20]} vs {m[20]}): not in proportion to the position's size: {op[:300]}")
 
 
+def c19_close_with_emissions(op, impl, model):
+    """w.wdall / w.repall / w.close <bank 16> <position 6> ..: a position is closed while a whole emission token (or more) is still unclaimed"""
+    kind = op.split(" ", 1)[0]
+    if kind not in ("w.wdall", "w.repall", "w.close") or not impl.startswith("ok"):
+        return None
+    try:
+        a = [int(x) for x in op.split()[1:]]
+    except ValueError:
+        return None
+    if len(a) < 22:
+        return None
+    emis = a[20]
+    if emis >= (1 << 48) and model.startswith("err"):
+        return (f"C19 a position holding {emis} bits (>= one whole token) of unclaimed emission rewards was closed by {kind}: the rewards were taken from the "
+                f"funded remainder when they accrued and are now paid to nobody ({model} expected): {op[:300]}")
+    return None
+
+
 def c16_tags(op, impl, model):
     """acct.tags <16 slots x 5> <bank tag> ..: validate_asset_tags"""
     if op.startswith("acct.tags") and impl.strip() == "ok" and model.startswith("err 6047"):
@@ -563,6 +581,10 @@ def c06_accrual(op, impl, model):
     """b.accrue <bank 16> ..  =>  ok <bank 16> <last_update> ..: same share values, different fee buckets"""
     if not op.startswith("b.accrue"):
         return None
+    if impl.startswith("ok") and model.startswith("err 6062"):
+        return (f"C06 an accrual SUCCEEDS where an intermediate product of the exact computation leaves the number type (the original refuses it with a math "
+                f"error): what is booked is a wrapped / saturated figure, so the increase in total debt no longer equals the increase in total deposits plus "
+                f"the fees booked: {op[:300]}")
     i, m = _nums(impl), _nums(model)
     if not i or not m or len(i) != len(m) or len(i) < 16:
         return None
@@ -832,7 +854,7 @@ WITNESS = {
     "C03": [c03_conversion, ixf_tokens("C03"), tf_mint("C03"), venue_booking("C03"), wrapper_free_value("C03"), world_rule("C03"), world_rule2("C03")],
     "C17": [c17_limits, world_rule("C17")],
     "C06": [c06_accrual, world_rule("C06"), world_rule2("C06"), world_rule3("C06")],
-    "C19": [c19_emissions, tf_mint("C19"), c19_collect("C19"), world_rule3("C19")],
+    "C19": [c19_close_with_emissions, c19_emissions, tf_mint("C19"), c19_collect("C19"), world_rule3("C19")],
     "C02": [c02_closebank, wrapper_ledger("C02"), venue_booking("C02"), wrapper_free_value("C02"), world_rule("C02"), world_rule2("C02")],
     "C11": [c11_health, world_rule2("C11"), world_rule3("C11")],
     "C10": [bracket_conditions("C10"), c10_health, world_rule("C10"), world_rule2("C10"), world_rule3("C10")],
